@@ -469,13 +469,14 @@ def write_summary_file_vue(stats, filepath, year=2025, currency_format="${amount
             '<script src="spending_report.js"></script>'
         )
     else:
-        # Embed everything inline (default)
+        # Embed everything inline (default). The data goes in last so that
+        # placeholder text inside a description is never substituted.
         final_html = html_template.replace(
             '/* CSS_PLACEHOLDER */', css_content
         ).replace(
-            '/* DATA_PLACEHOLDER */', data_script
-        ).replace(
             '/* JS_PLACEHOLDER */', js_content
+        ).replace(
+            '/* DATA_PLACEHOLDER */', data_script
         )
 
     # Write output file
